@@ -7,7 +7,7 @@ independent of whether it is written as switch / nested switch / if chain.
 """
 from . import compdb
 from .prog import (AnalysisBroken, key, strip, walk, const_value, enum_name, edpe_blocks, block_nodes, tok_dkey, tok_param, resolve_key)
-from .lalr import rhs_constants
+from .lalr import rhs_constants, rhs_constants_deep
 
 CTORS = {"token_new": 0, "token_new_parent": 1, "token_prune_graft": 2}
 
@@ -30,6 +30,28 @@ WRITERS = [
 
 def token_types(P):
     return dict(P.enumerators("token_types"))
+
+
+def ctor_table(P):
+    """Token constructors and their wrappers: function name -> index of the argument that becomes the new token's type
+    (a wrapper hands one of its parameters on as that argument; two levels)."""
+    if hasattr(P, "_ctor_table"):
+        return P._ctor_table
+    table = dict(CTORS)
+    for _ in range(2):
+        for h in P.all_funcs:
+            if not P.first_party(h) or h.name in table:
+                continue
+            names = {q[0]: i for i, q in enumerate(h.params)}
+            for c in h.calls():
+                idx = table.get(c.get("callee"))
+                if idx is None or 1 + idx >= len(c["c"]):
+                    continue
+                k = key(c["c"][1 + idx])
+                if k in names:
+                    table[h.name] = names[k]
+    P._ctor_table = table
+    return table
 
 
 def lexer_products(P, tt):
@@ -55,9 +77,11 @@ def lexer_products(P, tt):
             continue
         got = set()
         blocks = edpe_blocks(f, "type", v, start=start)
+        ctors = ctor_table(P)
         for n in block_nodes(f, blocks):
-            if n["k"] == "CallExpr" and n.get("callee") == "token_new":
-                a = n["c"][1]
+            if n["k"] == "CallExpr" and n.get("callee") in ctors and 1 + ctors[n["callee"]] < len(n["c"]) and \
+                    (n["callee"] == "token_new" or n["callee"] not in CTORS):
+                a = n["c"][1 + ctors[n["callee"]]]
                 if key(a) == "type":
                     got.add(v)
                 else:
@@ -98,11 +122,12 @@ def producible(P, tt):
             k = n["k"]
             if k == "CallExpr":
                 cal = n.get("callee")
-                if cal in CTORS:
+                ctors = ctor_table(P)
+                if cal in ctors:
                     args = n["c"][1:]
-                    if len(args) > CTORS[cal]:
+                    if len(args) > ctors[cal]:
                         n_sites += 1
-                        for v in rhs_constants(args[CTORS[cal]]):
+                        for v in rhs_constants(args[ctors[cal]]):
                             add(v, who)
                 elif cal == "token_pair_engine_add_pairing":
                     args = n["c"][1:]
@@ -117,7 +142,7 @@ def producible(P, tt):
                 lhs = strip(n["c"][0])
                 if lhs["k"] == "MemberExpr" and lhs["n"] == "type" and lhs.get("rec") == "token":
                     n_sites += 1
-                    for v in rhs_constants(n["c"][1]):
+                    for v in rhs_constants_deep(P, f, n["c"][1]):
                         add(v, who)
     return prod, n_sites, len(rets)
 
